@@ -301,6 +301,11 @@ class AssertEvaluator(object):
       return AV('bool', scalar=l.scalar, dims=l.dims, universal=bool(good),
                 why='%s-aggregate compared with %s' % (
                     l.pol, type(op).__name__))
+    for side in (l, r):
+      if side.kind == 'tensor' and side.why == 'abs-of-aggregate:full':
+        return AV('bool', scalar=side.scalar, dims=side.dims, universal=False,
+                  why='two-sided test of an aggregate over ALL axes: it only '
+                      'constrains the single extreme element, not every unit')
     if l.kind in ('tensor', 'agg') or r.kind in ('tensor', 'agg'):
       dims = None
       sc = False
@@ -357,6 +362,15 @@ class AssertEvaluator(object):
                   universal=True if x.universal is None else x.universal,
                   why='reduce_all(' + x.why + ')')
       if op == 'abs':
+        if x.kind == 'agg' or (x.kind == 'tensor' and x.why.startswith(
+            'offset aggregate')):
+          # |aggregate - c|: a two-sided test of an aggregate.  Its upper
+          # half bounds a min from above / a max from below, which is
+          # existential over every axis the aggregate reduced.
+          full = x.scalar
+          return AV('tensor', dims=x.dims, scalar=x.scalar, nonneg=True,
+                    why='abs-of-aggregate:%s' % ('full' if full else
+                                                 'partial'))
         if x.kind in ('tensor', 'agg'):
           return AV('tensor', dims=x.dims, scalar=x.scalar, nonneg=True)
         return x
